@@ -13,6 +13,7 @@ import (
 	"path/filepath"
 	"strings"
 	"sync"
+	"syscall"
 	"time"
 
 	// imports required for go-digest
@@ -142,8 +143,10 @@ func (m *mem) RepoGet(ctx context.Context, repoStr string) (Repo, error) {
 	if m.conf.Storage.RootDir != "" && len(repoStr) <= repoNameMax &&
 		!stringsHasAny(strings.Split(repoStr, "/"), indexFile, layoutFile, blobsDir) {
 		mr.path = filepath.Join(m.conf.Storage.RootDir, repoStr)
-		err := mr.repoInit()
-		if err != nil {
+		if fi, err := os.Stat(mr.path); (err == nil && !fi.IsDir()) || errors.Is(err, syscall.ENOTDIR) {
+			// the name, or a leading part of it, is a file in the root directory
+			mr.path = ""
+		} else if err := mr.repoInit(); err != nil {
 			return nil, err
 		}
 	}
